@@ -1233,7 +1233,7 @@ Proof.
 Qed.
 
 (* ---------------------------------------------------------------------------------- *)
-(* the historical rule (status <= Upgrading) admits a counterexample: F2 *)
+(* the historical rule (status <= Upgrading) lets in a counterexample: F2 *)
 
 Definition f2_labels : list label :=
   [LCreate 0; LStart 0; LRun 0; LCreate 1; LStart 1; LLink 1 0; LRun 1;   (* supervisor 0, child 1 *)
